@@ -744,6 +744,38 @@ def _matrix_rooted(t) -> bool:
     return n >= 1 and ((t[0] == "attr" and t[2] == "pre_distances") or (t[0] == "param" and t[1] == "pre_distances"))
 
 
+def class_constant(repo: Repo, cls: str, name: str):
+    """(module, value expression) of an UPPER_CASE name assigned exactly once in the body of `cls` (or of a base class) to
+    a literal, a tuple of literals or an attribute of the constants module, and stored on no instance anywhere."""
+    key = ("class_constant", cls, name)
+    if key in repo.memo:
+        return repo.memo[key]
+    repo.memo[key] = None
+    if not repo.has_class(cls):
+        return None
+    for ci in repo.mro(cls):
+        hits = [st for st in ci.node.body if isinstance(st, ast.Assign) and len(st.targets) == 1
+                and isinstance(st.targets[0], ast.Name) and st.targets[0].id == name]
+        if not hits:
+            continue
+        if len(hits) != 1:
+            return None
+        v = hits[0].value
+        simple = lambda n: isinstance(n, ast.Constant) or (isinstance(n, ast.UnaryOp) and isinstance(n.operand, ast.Constant)) \
+            or (isinstance(n, ast.Attribute) and isinstance(n.value, ast.Name)) \
+            or (isinstance(n, (ast.Tuple, ast.List)) and all(simple(x) for x in n.elts)) \
+            or (isinstance(n, ast.UnaryOp) and isinstance(n.op, ast.USub) and simple(n.operand))
+        if not simple(v):
+            return None
+        for mi in repo.modules.values():
+            for n in ast.walk(mi.tree):
+                if isinstance(n, ast.Attribute) and n.attr == name and isinstance(n.ctx, (ast.Store, ast.Del)):
+                    return None
+        repo.memo[key] = (repo.modules[ci.module], v)
+        return repo.memo[key]
+    return None
+
+
 def extension_fields(repo: Repo, cls: str) -> Dict[str, Term]:
     """Fields that exist only to hold an option the documented constructor does not have: assigned in `__init__` from a
     parameter that is not in the documented signature and has a constant default, written nowhere else (its own setter
@@ -2055,6 +2087,18 @@ class Walker:
                 return ("mod", f"{base[1]}.{e.attr}")
             if base[0] == "call" and base[1] == ("mod", "struct.Struct") and len(base[2]) == 1 and e.attr == "size":
                 return ("call", ("mod", "struct.calcsize"), base[2], ())  # struct.Struct(fmt).size
+            if isinstance(e.ctx, ast.Load) and e.attr.isupper() and (
+                    (base == ("self",) and self.self_class) or (base[0] == "mod" and self.repo.has_class(base[1].rpartition(".")[2]))):
+                # a class-level constant (`INITIAL_COST = c.FLOAT_MAX` in the class body, never assigned on instances)
+                cname = self.self_class if base == ("self",) else base[1].rpartition(".")[2]
+                cv = class_constant(self.repo, cname, e.attr)
+                if cv is not None:
+                    mi_c, node_c = cv
+                    saved = self.fnstack[-1]
+                    try:
+                        return self._ev_in_module(node_c, mi_c)
+                    except AnalysisError:
+                        pass
             if base == ("self",) and isinstance(e.ctx, ast.Load) and self.self_class:
                 ext = extension_fields(self.repo, self.self_class)
                 if e.attr.lstrip("_") in ext and self.fnstack[-1].name != "__init__" \
@@ -2310,6 +2354,11 @@ class Walker:
             if fn in (("mod", "numpy.asarray"), ("mod", "numpy.asanyarray"), ("mod", "numpy.float64")) and (
                     not kwargs or kwargs == (("dtype", ("mod", "numpy.float64")),) or kwargs == (("dtype", ("builtin", "float")),)):
                 return args[0]
+        # len(self) is self.__len__()
+        if fn == ("builtin", "len") and args == (("self",),) and not kwargs and self.self_class:
+            lf = self.repo.method(self.self_class, "__len__")
+            if lf is not None and len(self.fnstack) <= self.max_depth + 1 and lf not in self.fnstack:
+                return self.inline_call(lf, ("self",), (), (), e)
         # x.item() of an element of a numpy buffer built in this walk, or of arithmetic on such: the same number as a
         # Python scalar
         if fn[0] == "attr" and fn[2] == "item" and not args and not kwargs:
@@ -2490,6 +2539,32 @@ class Walker:
         t = ("call", fn, args, kwargs)
         self.emit("call", e, target=fn, value=t, name=fname or show(fn), args=args, kwargs=kwargs)
         return t
+
+    def _ev_in_module(self, node: ast.AST, mi) -> Term:
+        """Evaluate a constant expression written at class / module level of `mi` (names resolve through that module's
+        imports)."""
+        if isinstance(node, ast.Constant):
+            return ("const", node.value)
+        if isinstance(node, ast.UnaryOp) and isinstance(node.op, ast.USub):
+            v = self._ev_in_module(node.operand, mi)
+            if v[0] == "const" and isinstance(v[1], (int, float)) and not isinstance(v[1], bool):
+                return ("const", -v[1])
+            return ("neg", v)
+        if isinstance(node, (ast.Tuple, ast.List)):
+            return ("tuple", tuple(self._ev_in_module(x, mi) for x in node.elts))
+        if isinstance(node, ast.Attribute) and isinstance(node.value, ast.Name):
+            imps = getattr(mi, "imports", None) or {}
+            target = imps.get(node.value.id)
+            if target == CONST_MOD:
+                val = self.repo.constants.get(node.attr)
+                if isinstance(val, str):
+                    return ("const", val)
+                if node.attr not in LIBRARY_CONSTANTS and isinstance(val, (int, float)) and not isinstance(val, bool):
+                    return ("const", val)
+                return ("K", node.attr)
+            if target in ("numpy",):
+                return ("mod", f"numpy.{node.attr}")
+        raise AnalysisError("class constant outside the literal fragment")
 
     def _k_value(self, a: Term, b: Term):
         k, cst = (a, b) if a[0] == "K" else (b, a)
